@@ -548,3 +548,8 @@ T("fmt13-twin-guarded-loop", "C19", TY, "        for context in self.contexts:\n
 T("fmt13-twin-not-hidden-nest", "C19", TY, "            if frame.hide and not show_hidden_frames:\n                continue\n            if show_contexts:\n                yield from frame.as_stdlib_summary_with_contexts(\n                    show_hidden_frames=show_hidden_frames, capture_locals=capture_locals\n                )\n            else:\n                yield frame.as_stdlib_summary(capture_locals=capture_locals)",
   "            if show_hidden_frames or not frame.hide:\n                if not show_contexts:\n                    yield frame.as_stdlib_summary(capture_locals=capture_locals)\n                else:\n                    yield from frame.as_stdlib_summary_with_contexts(\n                        show_hidden_frames=show_hidden_frames, capture_locals=capture_locals\n                    )")
 T("fmt13-twin-entry-local", "C19", TY, "            else:\n                yield frame.as_stdlib_summary(capture_locals=capture_locals)", "            else:\n                entry = frame.as_stdlib_summary(capture_locals=capture_locals)\n                yield entry")
+
+# ---------------------------------------------------------------- GLUE-9 / GLUE-10
+M("glue9-outermost-without-glue", "C17", EX, "    assert current_options.with_contexts is not None\n    _glue.add_glue_as_needed()\n", "    assert current_options.with_contexts is not None\n", ["GLUE-9"], accept_analysis_error=True)
+T("glue9-twin-callers-install", "C17", EX, "    assert current_options.with_contexts is not None\n    _glue.add_glue_as_needed()\n", "    assert current_options.with_contexts is not None\n", extra=[("    it = extract_iter(stackitem, errors)", "    _glue.add_glue_as_needed()\n    it = extract_iter(stackitem, errors)"), ("            return next(extract_iter(stackitem, errors))", "            _glue.add_glue_as_needed()\n            return next(extract_iter(stackitem, errors))")])
+M("glue10-name-memo", "C17", GL, "        for module_name in module_names:\n            install_glue_for_module(module_name)\n", "        for module_name in module_names:\n            if module_name in _seen_names:\n                continue\n            _seen_names.add(module_name)\n            install_glue_for_module(module_name)\n", "GLUE-10", extra=[("glue_lock = threading.Lock()\n", "glue_lock = threading.Lock()\n_seen_names: set = set()\n")])
